@@ -1,4 +1,4 @@
-//@unit c10_grammar props=C10,C20 widths=u32
+//@unit c10_grammar props=C10,C20,C15 widths=u32
 //@use prelude/head.rs
 //@use prelude/grammar.rs
 //@use prelude/vob.rs
@@ -15,13 +15,22 @@ impl RuleMap {
 #[verifier::external_body] pub struct TokMap { _x: usize }         // HashMap<String, TIdx>
 impl TokMap {
     pub uninterp spec fn bound(&self) -> nat;
-    #[verifier::external_body] pub fn idx(&self, k: &Name) -> (r: TIdx<$T>) ensures (r.0 as nat) < self.bound() { unimplemented!() }
+    pub uninterp spec fn sidx(&self, k: int) -> TIdx<$T>;
+    #[verifier::external_body] pub fn idx(&self, k: &Name) -> (r: TIdx<$T>) ensures (r.0 as nat) < self.bound(), r == self.sidx(k.id()) { unimplemented!() }
 }
 #[verifier::external_body] pub struct NameSet { _x: usize }        // HashMap<String, Span> used as a set of names
 impl NameSet {
     // dialect rule 5: `.keys()` as an arbitrary-order list
     pub uninterp spec fn n(&self) -> nat;
     #[verifier::external_body] pub fn keys_vec(&self) -> (r: &Vec<Name>) ensures r@.len() == self.n() { unimplemented!() }
+    // the names in the order of their spans in the source (spans of distinct declarations differ),
+    // a function of the map's contents and not of its iteration order
+    pub uninterp spec fn by_span(&self) -> Seq<int>;
+    // dialect: `.iter().collect::<Vec<_>>()` + `sort_by_key(|(_, span)| span.start())`
+    #[verifier::external_body]
+    pub fn sorted_by_span(&self) -> (r: Vec<(&Name, &Span)>)
+        ensures r@.len() == self.n(), self.by_span().len() == self.n(), forall|k: int| 0 <= k < r@.len() ==> (#[trigger] r@[k]).0.id() == self.by_span()[k]
+    { unimplemented!() }
 }
 // `v[i].push(x)` through `&mut v[i]`
 #[verifier::external_body]
@@ -40,6 +49,7 @@ pub open spec fn parallel(pv: &PV) -> bool {
     pv.prods@.len() == pv.prod_precs@.len() && pv.prods@.len() == pv.prods_rules@.len() && pv.prods@.len() == pv.actions@.len() && pv.prods@.len() == pv.action_spans@.len()
 }
 
+pub open spec fn prod_is(prods: Seq<Option<Vec<Symbol<$T>>>>, i: int, t: TIdx<$T>, r: RIdx<$T>) -> bool { 0 <= i < prods.len() && prods[i] is Some && prods[i]->Some_0@ == seq![Symbol::Token(t), Symbol::Rule(r)] }
 //@ctx branches: the rule being processed and every name looked up in rule_map/token_map are registered (their indices are below rules_prods.len()); prods.len() is below the guarded final size
 fn start_rule_branch(rules_prods: &mut Vec<Vec<PIdx<$T>>>, pv: &mut PV, ridx: RIdx<$T>, rule_map: &RuleMap, start_name: &Name, implicit_start_rule: Option<Name>)
     requires parallel(old(pv)), (ridx.0 as nat) < old(rules_prods)@.len(), old(pv).prods@.len() < $TMAX,
@@ -70,24 +80,48 @@ fn implicit_start_rule_branch(rules_prods: &mut Vec<Vec<PIdx<$T>>>, pv: &mut PV,
     //@endbody
 }
 
-fn implicit_rule_branch(rules_prods: &mut Vec<Vec<PIdx<$T>>>, pv: &mut PV, ridx: RIdx<$T>, rule_map: &RuleMap, token_map: &TokMap, astrulename: &Name, implicit_tokens: &NameSet)
-    requires parallel(old(pv)), rule_map.bound() <= old(rules_prods)@.len(), old(pv).prods@.len() + implicit_tokens.n() < $TMAX,
+fn implicit_rule_branch(rules_prods: &mut Vec<Vec<PIdx<$T>>>, pv: &mut PV, ridx: RIdx<$T>, rule_map: &RuleMap, token_map: &TokMap, astrulename: &Name, implicit_tokens_map: &NameSet)
+    requires parallel(old(pv)), rule_map.bound() <= old(rules_prods)@.len(), old(pv).prods@.len() + implicit_tokens_map.n() < $TMAX,
     ensures parallel(final(pv)), // OBL: C10.per_production_vectors_stay_parallel.implicit_rule
+        final(pv).prods@.len() == old(pv).prods@.len() + implicit_tokens_map.n() + 1,
+        // same numbering on every run: the k-th added production is the one of the k-th implicit token in source order
+        forall|k: int| 0 <= k < implicit_tokens_map.n() ==> #[trigger] prod_is(final(pv).prods@, old(pv).prods@.len() + k, token_map.sidx(implicit_tokens_map.by_span()[k]), ridx), // OBL: C15.implicit_token_productions_numbered_in_source_order
 {
     //@probe
     //@body file=cfgrammar/src/lib/yacc/grammar.rs fn=new_from_ast_with_validity_info block=`let implicit_prods = &mut rules_prods\[usize::from\(rule_map\[astrulename\]\)\];` end=`^\s*continue;`
     //@rule n=* `\b(prods|prod_precs|prods_rules|actions|action_spans)\.` => `pv.\1.`
     //@rule n=1 `let implicit_prods = &mut rules_prods\[usize::from\(rule_map\[astrulename\]\)\];` => `let implicit_i_ = usize::from(rule_map.idx(astrulename));`
     //@rule n=* `implicit_prods\.push\(` => `vv_push(rules_prods, implicit_i_, `
-    //@rule n=1 `^(\s*)for t in ast\.implicit_tokens\.as_ref\(\)\.unwrap\(\)\.keys\(\) \{$` =>>
-                let itks_ = implicit_tokens.keys_vec();
+    //@rule n=1 `let mut implicit_tokens = ast\s*\.implicit_tokens\s*\.as_ref\(\)\s*\.unwrap\(\)\s*\.iter\(\)\s*\.collect::<Vec<_>>\(\);\s*implicit_tokens\.sort_by_key\(\|\(_, span\)\| span\.start\(\)\);` => `let implicit_tokens = implicit_tokens_map.sorted_by_span();`
+    //@rule n=1 `^(\s*)for \(t, _\) in implicit_tokens \{$` =>>
                 let ghost n0 = pv.prods@.len();
-                for ti_ in 0..itks_.len()
-                    invariant parallel(pv), rules_prods@.len() == old(rules_prods)@.len(), implicit_i_ < rules_prods@.len(), itks_@.len() == implicit_tokens.n(),
-                        pv.prods@.len() == n0 + ti_, n0 + itks_@.len() < $TMAX,
+                for ti_ in 0..implicit_tokens.len()
+                    invariant parallel(pv), rules_prods@.len() == old(rules_prods)@.len(), implicit_i_ < rules_prods@.len(),
+                        implicit_tokens@.len() == implicit_tokens_map.n(), implicit_tokens_map.by_span().len() == implicit_tokens_map.n(),
+                        forall|k: int| 0 <= k < implicit_tokens@.len() ==> (#[trigger] implicit_tokens@[k]).0.id() == implicit_tokens_map.by_span()[k],
+                        pv.prods@.len() == n0 + ti_, n0 == old(pv).prods@.len(), n0 + implicit_tokens@.len() < $TMAX,
+                        forall|k: int| 0 <= k < ti_ ==> #[trigger] prod_is(pv.prods@, n0 + k, token_map.sidx(implicit_tokens_map.by_span()[k]), ridx), // OBL: C15.implicit_token_productions_numbered_in_source_order.each
                 {
                     //@probe
-                    let t = &itks_[ti_];
+                    let t = implicit_tokens[ti_].0;
+                    let ghost pre_ = pv.prods@;
+    //@end
+    //@after n=1 `^\s*pv\.prods\.push\((?=Some\(vec!\[Symbol::Token)` =>>
+                    proof {
+                        assert forall|k: int| 0 <= k < ti_ + 1 implies #[trigger] prod_is(pv.prods@, n0 + k, token_map.sidx(implicit_tokens_map.by_span()[k]), ridx) by {
+                            if k < ti_ { assert(prod_is(pre_, n0 + k, token_map.sidx(implicit_tokens_map.by_span()[k]), ridx)); assert(pv.prods@[n0 + k] == pre_[n0 + k]); }
+                        }
+                    }
+    //@end
+    //@rule n=1 `^(\s*)pv\.prods\.push\(Some\(vec!\[\]\)\);$` =>>
+                let ghost pre2_ = pv.prods@;
+                pv.prods.push(Some(vec![]));
+                proof {
+                    assert forall|k: int| 0 <= k < implicit_tokens_map.n() implies #[trigger] prod_is(pv.prods@, n0 + k, token_map.sidx(implicit_tokens_map.by_span()[k]), ridx) by {
+                        assert(prod_is(pre2_, n0 + k, token_map.sidx(implicit_tokens_map.by_span()[k]), ridx));
+                        assert(pv.prods@[n0 + k] == pre2_[n0 + k]);
+                    }
+                }
     //@end
     //@rule n=* `token_map\[(\w+)\]` => `token_map.idx(\1)`
     //@rule n=1 `^\s*continue;` => ``
